@@ -43,13 +43,16 @@ def seeded_md():
     res = json.load(open(f))
     r2 = json.load(open('/verif/seeded/ROUND2_BLIND.json')) if os.path.exists('/verif/seeded/ROUND2_BLIND.json') else {'blind_detected': {}, 'notes': {}}
     r3 = json.load(open('/verif/seeded/ROUND3_BLIND.json')) if os.path.exists('/verif/seeded/ROUND3_BLIND.json') else {'blind_detected': {}, 'notes': {}}
+    r4 = json.load(open('/verif/seeded/ROUND4_BLIND.json')) if os.path.exists('/verif/seeded/ROUND4_BLIND.json') else {'blind_detected': {}, 'notes': {}}
     out = ['| seeded change | round | what it does | needs to manifest | caught by (now) | detected blind (rule existed before the change was seen) |\n|---|---|---|---|---|---|']
-    nb = [0, 0, 0, 0, 0, 0]
+    nb = [0, 0, 0, 0, 0, 0, 0, 0]
     for k in sorted(res):
         m = json.load(open('/verif/seeded/%s/meta.json' % k))
         s = (m.get('summary') or '')[:160].replace('|', '/').replace('\n', ' ')
         nd = str(m.get('needs_to_manifest') or '')[:140].replace('|', '/').replace('\n', ' ')
-        if k in r3['blind_detected']:
+        if k in r4['blind_detected']:
+            rnd, blind = 4, r4['blind_detected'][k]
+        elif k in r3['blind_detected']:
             rnd, blind = 3, r3['blind_detected'][k]
         elif k in r2['blind_detected']:
             rnd, blind = 2, r2['blind_detected'][k]
@@ -57,12 +60,12 @@ def seeded_md():
             rnd, blind = 1, bool(m.get('static_check_result', {}).get('rule_existed_before_this_change_was_seen'))
         nb[(rnd - 1) * 2] += 1
         nb[(rnd - 1) * 2 + 1] += 1 if blind else 0
-        note = r2['notes'].get(k, '') or r3.get('notes', {}).get(k, '')
+        note = r2['notes'].get(k, '') or r3.get('notes', {}).get(k, '') or r4.get('notes', {}).get(k, '')
         out.append('| %s | %d | %s | %s | %s | %s |' % (k, rnd, s, nd, ', '.join(res[k].get('rules', [])) or res[k]['status'],
                                                          ('yes' if blind else 'no') + ((' -- ' + note) if note else '')))
     n = sum(1 for v in res.values() if v['status'] == 'detected')
-    out.append('\nDetected now: %d of %d. Blind: round 1 %d of %d (most round-1 rules were written after reading the change), round 2 %d of %d, round 3 %d of %d.' % (
-        n, len(res), nb[1], nb[0], nb[3], nb[2], nb[5], nb[4]))
+    out.append('\nDetected now: %d of %d. Blind: round 1 %d of %d (most round-1 rules were written after reading the change), round 2 %d of %d, round 3 %d of %d, round 4 %d of %d.' % (
+        n, len(res), nb[1], nb[0], nb[3], nb[2], nb[5], nb[4], nb[7], nb[6]))
     return '\n'.join(out)
 
 
